@@ -2,6 +2,19 @@ HOOK_COMMITS = ["d197d80"]
 NOTES = "All checks are generated-input search (proptest choice sequences, exhaustive small-domain enumeration) against explicit oracles; see DESIGN.md. Exit 2 = inconclusive (build failure / watchdog), never a violation."
 NOT_CLAIMED = {}
 CLAIMED = {
+ "C15": {
+  "technique": "exhaustive enumeration of all types up to 12 layers + sampled deep types and generated scheme documents through four serde entry points; round-trip and differential (Rust vs C API) oracles",
+  "text": "Exploration: all 32,764 types with <= 12 layers and shaped/sampled types up to 32 layers round-trip through the recursive, bit-packed (CompoundType, CType built through the C constructors) and JSON forms (5 writers incl. the C API, 5 readers); descriptors with 33..130 layers must be rejected or reproduce the same JSON, never panic; scheme documents with 0..40 fields (dotted, long, non-ASCII, escape-requiring names, re-spelled with \\u escapes) round-trip names, order, types and optionality through from_str/from_slice/from_reader/from_value, duplicates (also equal only after escape normalisation) are rejected.",
+  "note": "For from_value the expected field order is the value tree's own (sorted) member order.",
+  "ref": "DESIGN.md section 3, C15",
+ },
+ "C16": {
+  "technique": "exhaustive + random operation sequences against an abstract registry model (model-based testing), resolution confirmed by execution",
+  "text": "Exploration: all add_field/add_optional_field/add_function/add_list sequences up to length 4 (quick) / 6 (thorough) over colliding names, plus random histories up to length 12 over the full pool; after every step outcomes, holder kinds, counts, order, indexes, types, optionality and lookups equal the model; 30 probe names (prefixes, extensions, case variants) resolve exactly as the model says through the API and through parsing and executing `name`, `name == lit`, `name()`; clones are interchangeable, identical re-builds are not.",
+  "note": "Names beginning with an operator keyword (not/any/all) are outside the property's pool and not generated.",
+  "ref": "DESIGN.md section 3, C16",
+ },
+
  "C09": {
   "technique": "exhaustive small-domain enumeration + property-based testing against a linear-scan reference",
   "text": "Exploration: every list of <=3 (quick) / <=4 (thorough) inclusive ranges over a 7-point domain embedded order-preservingly into i64 / IPv4 (and an IPv6 analogue), written as values, a..b ranges and CIDRs, probed at every point, between points, with other-family addresses and the unset field; plus random lists of <=40 items (extremes, neighbours of earlier endpoints, /0, duplicates, mixed families, byte-string sets with shared prefixes) probed at every boundary +-1, also under any(arr[*] in {...}); oracle = linear scan of the written items with own mask arithmetic.",
